@@ -5,6 +5,6 @@ CONSTANTS
   MaxSteps = 5
   Errs = {"overflow"}
   StartEof = TRUE
-INVARIANTS RefAccepts Abstraction ParkedReaderRegistered ParkedFeederRegistered Emit
+INVARIANTS RefAccepts Abstraction ParkedReaderRegistered ParkedFeederRegistered IndMapped Emit
 VIEW View
 CHECK_DEADLOCK FALSE
